@@ -902,7 +902,7 @@ func checkC20(c *mc.Ctx) {
 		depth = 8
 	}
 	streams := c19Streams(c.Seed)
-	streams = append(streams, &Stream{Name: "big-payloads", Bytes: BigPayloadStream(c.Seed)}, MultiSectionStream(c.Seed), NetworkPIDStream(c.Seed, 0x10), NetworkPIDStream(c.Seed, 0x50), HeadlessStream(c.Seed), BrokenSectionStream(c.Seed), ESTypesStream(c.Seed), TSIDChangeStream(c.Seed), PMTPIDTakeoverStream(c.Seed))
+	streams = append(streams, &Stream{Name: "big-payloads", Bytes: BigPayloadStream(c.Seed)}, MultiSectionStream(c.Seed), NetworkPIDStream(c.Seed, 0x10), NetworkPIDStream(c.Seed, 0x50), HeadlessStream(c.Seed), BrokenSectionStream(c.Seed), ESTypesStream(c.Seed), TSIDChangeStream(c.Seed), PMTPIDTakeoverStream(c.Seed), PCRInsideUnitsStream(c.Seed))
 	for _, st0 := range streams {
 		for _, cfg := range []struct {
 			auto bool
@@ -1128,6 +1128,27 @@ func PMTPIDTakeoverStream(seed int64) *Stream {
 		ver++
 	}
 	return &Stream{Name: "pmt-pid-takeover", Pkts: ps, Bytes: EncodePkts(ps)}
+}
+
+// PCRInsideUnitsStream: clock references that do not sit in the first packet of a unit - in the adaptation field of
+// a unit's second packet, in a packet without payload between two packets of a unit - and grow from unit to unit.
+func PCRInsideUnitsStream(seed int64) *Stream {
+	ccs := []uint8{0, 0}
+	cv := uint8(7)
+	var ps []*ref.Pkt
+	ps = append(ps, Packetize(PSIUnit(0, 0, [][]byte{SecPAT(modelPAT(1, 0x1000), ref.SecHdr{CNI: true})}, nil), nil, &ccs[0], true)...)
+	ps = append(ps, Packetize(PSIUnit(0x1000, 0, [][]byte{SecPMT(modelPMT(1, 0x100, 1), ref.SecHdr{CNI: true})}, nil), nil, &ccs[1], true)...)
+	for k := 0; k < 3; k++ {
+		u := Packetize(PESUnit(0x100, 0xe0, pesPayload(170+k, 184+100+184-14-5, seed), uint64(k+1), false), []int{0, 100}, &cv, false)
+		// second packet: 100 payload bytes, the rest adaptation field - put a PCR into it
+		u[1].AF.PCR = &ref.PCR{Base: uint64(1000 * (k + 1)), Ext: uint16(k)}
+		u[1].AF.Stuffing -= 6
+		// a packet without payload carrying the next PCR, between the second and the third packet (same counter)
+		pcrOnly := &ref.Pkt{PID: 0x100, HasAF: true, AF: &ref.AF{PCR: &ref.PCR{Base: uint64(1000*(k+1) + 500)}, Stuffing: 176}, CC: u[1].CC}
+		ps = append(ps, u[0], u[1], pcrOnly)
+		ps = append(ps, u[2:]...)
+	}
+	return &Stream{Name: "pcr-inside-units", Pkts: ps, Bytes: EncodePkts(ps)}
 }
 
 // VersionToggleStream: tables that change over time and come back to a version number they had before with
